@@ -75,7 +75,8 @@ PROPERTIES = {
                        'array (frame bytes, PDO/SYNC/EMCY tables, service tables) is proven in range; (3) every dereference '
                        'of a value loaded from a location the library itself nulls (timer lists, SYNC tables, mapping '
                        'slots, dictionary lookups) is non-null on every path; (4) SDO continuation handlers reachable with '
-                       'no transfer open test srv->Obj before touching transfer state.',
+                       'no transfer open test srv->Obj before touching transfer state.'
+                       ' Further clauses added later: lossless narrowing of every length / size / offset value (RF7), per-server transfer buffer slices do not overlap, the transfer buffer cursor is defined by the initiator before a continuation uses it, ObjNum is published only for a validated mapping (premise of the Map[]/Size[] subscripts), timer action chain shape (tail pointer), 1003h history read stays inside the ring.',
         'not_decided': 'the whole reachability claim (no sanitizer report on any history): SDO buffer cursor bounds across '
                        'frames, undefined arithmetic, driver-fault sequences',
     },
@@ -91,7 +92,8 @@ PROPERTIES = {
                        'query the size with their own width and refuse other widths before access; integer types agree '
                        '(node-id added on read / subtracted on write, width check, TPDO trigger iff asynchronous, mappable '
                        'and changed); buffer length reaches the object layer unconverted; domain access moves '
-                       'min(requested, remaining) bytes and a start access resets the offset first.',
+                       'min(requested, remaining) bytes and a start access resets the offset first.'
+                       ' Further clauses: object-layer wrappers forward to the type function on every path whatever the key flags are; stored-value classes (a direct entry holding 0); offset discipline of the streaming types; RF7 on offsets and lengths.',
         'not_decided': 'round-trip of every value and correctness of the search on every concrete dictionary beyond the '
                        'shape argument',
     },
@@ -103,7 +105,8 @@ PROPERTIES = {
                        'a head that is kept or dereferenced happens at lock depth 1, the interrupt-level service takes no '
                        'lock and only moves the head event; RF5 on CO_TMR.{Use,Elapsed,Free,Acts} and the Next/Action links: the delete-while-elapsed clause '
                        'needs COTmrRemove/COTmrDelete/COTmrInsert to tolerate an event that is not in the used list, an '
-                       'emptied event in the elapsed list and an exhausted event pool.',
+                       'emptied event in the elapsed list and an exhausted event pool.'
+                       ' Further clauses: pool-conservation tables of COTmrCreate / COTmrService / COTmrDelete (search in the pending AND the elapsed list, push in front of the elapsed list), tail-pointer maintenance of the action chains, head-delta provenance and equal-expiry merge (RF15), driver init before the timer lists are emptied.',
         'not_decided': 'interleaving semantics under preemption',
     },
     'C13': {
@@ -251,7 +254,7 @@ PROPERTIES = {
         'technique': 'timer-handle typestate dataflow with callee summaries and requirement propagation; decision-table extraction by partial evaluation of the handlers over input classes; must-facts at transmission sites; relational must-facts for the user-buffer bound',
     },
     'C20': {
-        'rules': ['RF3', 'RESET', 'LSS', 'EMCY', 'SDO', 'PARA'],
+        'rules': ['RF3', 'RESET', 'LSS', 'EMCY', 'SDO', 'PARA', 'SYNC'],
         'explanation': 'RF3-H3: reset communication releases every instance of all seven timer handles (H1: no re-initialisation overwrites an armed handle); RF9a: every activation effect of CONodeInit (timer with callback X, consumer / producer activation, cached identifier, servers / clients enabled) is re-established by CONmtReset; RF9b: every service record initialised by CONodeInit is re-initialised or reset on every reset-communication path; RF9c: the timer pool reset is not reachable from CONmtReset (application timers survive); LSS: stored configuration loaded before servers and boot-up; SDO servers: COSdoReset resets every dispatcher-consulted field (RF12b); EMCY: the silent reset covers every active error number and every class counter. Thirteen known findings (reset-communication cluster).',
         'not_decided': 'trace equivalence with a fresh node',
         'technique': 'typestate release-on-reset with loop summaries over semantically recognised counted loops and list walks; init / reset effect agreement over the exactly resolved call graph; decision tables of the reset paths',
